@@ -213,9 +213,12 @@ APPEND = {
     "C02": CTE + "the primary key and every key column the join paths use are projected, a dimension that is not a key column keeps its own SQL (C02_primary_key_projected, C02_join_keys_projected, "
                  "C02_non_key_dimension_own_sql); the K4 witness is a row of the regenerated table. Sample stddev / variance / median of the parent across a one_to_many hop are a targeted family.",
     "C04": CTE + "a metric's filters only change that metric's raw column, which is the unfiltered column guarded by their conjunction (C04_metric_filter_only_its_column, C04_filtered_measure_guarded). "
-                 "Metric-value filters are also asked with a rollup available, routed and unrouted.",
+                 "Metric-value filters are also asked with a rollup available, routed and unrouted. _rewrite_model_refs_to_ctes is regenerated on scripted texts (C04_cte_reference_table).",
     "C20": CTE + "every requested dimension is projected under its name and every requested granularity of a time dimension under <name>__<granularity>, nothing twice (C20_requested_dimension_projected, "
                  "C20_requested_granularity_projected, C20_projected_once); the K3 witness is a row of the regenerated table. One definition in three is registered through extends.",
+    "C08": " Regenerated on every run as well: what _rewrite_filter_for_preaggregation returns on 10 scripted filter texts x 4 rollups (Gen/RefRewrite_gen.v); the reference-level model equals it on "
+           "every parsed row and, for EVERY reference, drops the model's own qualifier, leaves other tables alone and maps the rollup's time dimension to its time column (C08_filter_rewrite_table, "
+           "C08_own_reference_unqualified, C08_other_table_untouched, C08_time_dimension_reads_time_column). Listed since the fifth session: C08-K9.",
     "C11": " Regenerated on every run: what sql_definitions._parse_scalar_literal makes of 44 scripted property values (Gen/SqlValue_gen.v); Model/SqlValue.v equals it on every row and, for EVERY text s, "
            "the single-quoted literal with doubled quotes denotes s (C11_quoted_literal_roundtrip). Generated three-way definitions (Python / YAML / SQL definition syntax with quoted expressions) are compiled and compared.",
 }
